@@ -618,7 +618,7 @@ PROPS["C07"] = dict(
         "quick": "per dialect (MySQL, PostgreSQL, SQLite): a one-table plan (CREATE TABLE with primary key, default, comment, plus CREATE INDEX) whose "
                  "table and column names end in 1 fully symbolic byte (texts concrete), or whose default literal and column comment end in 1 fully "
                  "symbolic byte (names concrete), or whose table name ends in 3 and column name in 1 symbolic bytes drawn from {identifier quote, 'a'}; "
-                 "formatters: Atlas default; golang-migrate and flyway (plain files); goose and dbmate (own readers); "
+                 "formatters: Atlas default; golang-migrate, flyway and liquibase (plain files); goose and dbmate (own readers); "
                  "read back with migrate.FileStmts and the dialect driver's ScanStmts",
         "thorough": "same plus names and texts symbolic together (1 byte each) and 2-byte names",
     },
@@ -626,7 +626,7 @@ PROPS["C07"] = dict(
         "the default value is given as an HCL document gives it (raw text in schema.Literal, quoted by the planner)",
         "formatter templates evaluated by the engine's template evaluator on the real parsed trees",
     ],
-    outside="plans of several tables / other change kinds, the Liquibase format (no reader), enterprise BEGIN...END bodies, the import command, "
+    outside="plans of several tables / other change kinds, enterprise BEGIN...END bodies, the import command, "
             "longer symbolic strings, enum values (see C15 finding)",
     claim="For every value of the symbolic bytes (quotes, semicolons, comment markers, backslashes, newlines, non-ASCII included) the statements read back "
           "from the written file are exactly the planned commands, same count, order and text, for each formatter/reader pair; the goose / dbmate readers on "
